@@ -144,13 +144,13 @@ def configs(tier: str) -> List[Cfg]:
     classes = dw.start_classes("quick")
     if tier == "quick":
         stats_list = [(), ("a", "ab")]
-        packs = ["base", "norm+sym", "sym", "inf2", "inf2r", "rfac", "rfac+sym", "sfac", "ver:a,b", "dropempty", "inf1+rfac", "two"]
+        packs = ["base", "norm+sym", "sym", "inf2", "inf2r", "rfac", "rfac2", "rfac+sym", "sfac", "ver:a,b", "dropempty", "inf1+rfac", "two", "norm+atomlast", "oneway+inf1", "onewayexp+sym"]
         dbs = ("RuleDB", "Forest", "Forget")
     else:
         stats_list = [(), ("a",), ("a", "ab"), ("ab",)]
         packs = ["base", "norm", "norm+sym", "sym", "inf1", "inf2", "inf2r", "rfac", "rfac+sym", "rfaconly", "sfac", "ver:a,b", "ver:e",
                  "dropempty", "inf1+rfac", "inf2+rfac+sym", "two", "noinit", "swapped", "norm+inf2+sym", "sfac+sym", "verfirst:a,ab+sym",
-                 "rfac+iter", "sym+iter"]
+                 "rfac+iter", "sym+iter", "rfac2", "rfac2+sym", "rfac2+inf1", "norm+atomlast", "atomlast+sym", "oneway", "oneway+inf1", "onewayexp+inf1+sym", "oneway+inf2"]
         dbs = DBS
         classes = classes + [c for c in dw.start_classes("thorough") if c not in classes]
     res = []
